@@ -228,6 +228,25 @@ CHECKS = {
         'formulas are identities of rational functions, transfer to F_p '
         'assumed and cross-checked on toy fields; counterexamples confirmed by '
         'a concrete differential oracle on toy and named curves'),
+    'C14': (
+        True, '5/C14',
+        'cxxsym: symbolic interpretation of clang\'s JSON AST of '
+        'LfsrLengthImpl (both compile-time variants) and LfsrLength over z3 '
+        'bit-vectors with state merging; pysym for the Python routine; '
+        'miters against a textbook Berlekamp-Massey encoding',
+        'Bounded symbolic model checking / translation from the compiler\'s '
+        'parse: every sequence of length 0..13 (16) incl. arbitrary garbage '
+        'above n: portable C++ = textbook, CLMUL variant = textbook; byte '
+        'packing and range check of LfsrLength; Python native = textbook for '
+        'every sequence of length <= 10 (13); CLMUL variant = portable variant '
+        'on sub-cubes of 6..10 symbolic bits around word and block boundaries '
+        'over zero / single-one / all-one / alternating backgrounds for '
+        'lengths 64..256 (320), each cube anchored to the textbook algorithm '
+        'concretely; LfsrCount by solver enumeration for n <= 8 (10).',
+        'clang 14 AST trusted; clmul modelled as 128-bit carry-less product; '
+        'interpreter validated against g++ builds of both variants on 300 '
+        'seeded sequences per run of the validation script; long sequences '
+        'outside the cubes are outside the claim'),
 }
 
 NOT_APPLICABLE = {
